@@ -58,9 +58,11 @@ var (
 func parseIR(text string) []*irFunc {
 	var fns []*irFunc
 	var cur *irFunc
-	for _, line := range strings.Split(text, "\n") {
+	for _, rawLine := range strings.Split(text, "\n") {
+		// complex numbers are { double, double } / { float, float }: one token for the parser
+		line := strings.ReplaceAll(strings.ReplaceAll(rawLine, "{ double, double }", "c128"), "{ float, float }", "c64")
 		if m := reDefine.FindStringSubmatch(line); m != nil {
-			cur = &irFunc{name: m[2], ret: m[1], text: strings.Replace(line, " #0 {", " {", 1) + "\n"}
+			cur = &irFunc{name: m[2], ret: m[1], text: strings.Replace(rawLine, " #0 {", " {", 1) + "\n"}
 			for _, p := range strings.Split(m[3], ",") {
 				p = strings.TrimSpace(p)
 				if p == "" {
@@ -79,7 +81,7 @@ func parseIR(text string) []*irFunc {
 			cur = nil
 			continue
 		}
-		cur.text += line + "\n"
+		cur.text += rawLine + "\n"
 		t := strings.TrimSpace(line)
 		if t == "" || strings.HasPrefix(t, ";") {
 			continue
@@ -158,7 +160,13 @@ func parseIR(text string) []*irFunc {
 		case "extractvalue":
 			// extractvalue <aggregate type> %x, k   (type may contain spaces/quotes)
 			ins.args = []string{f[len(f)-2], f[len(f)-1]}
-		case "getelementptr", "load", "alloca", "store", "bitcast", "insertvalue", "ptrtoint", "inttoptr":
+		case "insertvalue":
+			// insertvalue <agg type> <base>, <elt type> <value>, k
+			if len(f) == 6 && irAggWidth(f[1]) > 0 {
+				ins.ty = f[1]
+				ins.args = []string{f[2], f[4], f[5]}
+			}
+		case "getelementptr", "load", "alloca", "store", "bitcast", "ptrtoint", "inttoptr":
 			ins.ty = ""
 			if ins.op == "load" && len(f) > 1 {
 				ins.ty = f[1]
@@ -186,6 +194,18 @@ type irVal struct {
 	w      int
 	poison string // SMT Bool term
 	fp     bool
+	agg    []irVal // complex number: {re, im}
+}
+
+// irAggWidth: component width of a complex aggregate token (see parseIR), else 0.
+func irAggWidth(ty string) int {
+	switch ty {
+	case "c128":
+		return 64
+	case "c64":
+		return 32
+	}
+	return 0
 }
 
 // irFPWidth: 32 for float, 64 for double, else 0.
@@ -511,6 +531,23 @@ func (e *irEval) eval(fn *irFunc) (ret irVal) {
 			e.vals[ins.res] = irVal{t: t, w: tw, poison: a.poison}
 		case "call":
 			kind := ins.pred[strings.LastIndex(ins.pred, ".")+1:]
+			if kind == "Complex128Div" && len(ins.args) == 2 && ins.res != "" {
+				// the run-time function (verified separately against c128div_re/im): an
+				// uninterpreted pair of functions of the four components
+				x, okx := e.vals[ins.args[0]]
+				y, oky := e.vals[ins.args[1]]
+				if !okx || !oky || x.agg == nil || y.agg == nil {
+					e.err = "Complex128Div on unknown operands"
+					continue
+				}
+				argS := x.agg[0].t + " " + x.agg[1].t + " " + y.agg[0].t + " " + y.agg[1].t
+				p := orS(x.agg[0].poison, x.agg[1].poison, y.agg[0].poison, y.agg[1].poison)
+				e.ub = append(e.ub, andS(e.alive, p)) // passing poison to a call
+				e.vals[ins.res] = irVal{w: 64, agg: []irVal{
+					{t: "(cdiv_re " + argS + ")", w: 64, poison: "false", fp: true},
+					{t: "(cdiv_im " + argS + ")", w: 64, poison: "false", fp: true}}}
+				continue
+			}
 			if !strings.HasPrefix(kind, "Assert") {
 				// any other call: recorded with its integer operands; result opaque
 				c := irCall{name: kind}
@@ -539,12 +576,41 @@ func (e *irEval) eval(fn *irFunc) (ret irVal) {
 		case "extractvalue":
 			// field k of an aggregate parameter: a symbolic constant; runtime.Slice is
 			// {ptr, len, cap}, runtime.String {ptr, len}: fields 1 and 2 are 64-bit ints
+			if v, ok := e.vals[ins.args[0]]; ok && v.agg != nil {
+				k, _ := strconv.Atoi(ins.args[1])
+				if k < 0 || k >= len(v.agg) {
+					e.err = "extractvalue index out of range"
+					continue
+				}
+				e.vals[ins.res] = v.agg[k]
+				continue
+			}
 			if ins.args[1] != "0" {
 				name := "ev_" + strings.TrimPrefix(ins.args[0], "%") + "_" + ins.args[1]
 				e.decls = append(e.decls, fmt.Sprintf("(declare-const %s (_ BitVec 64))\n(assert (bvsge %s (_ bv0 64)))\n", name, name))
 				e.vals[ins.res] = irVal{t: name, w: 64, poison: "false"}
 			}
-		case "getelementptr", "alloca", "store", "bitcast", "insertvalue", "ptrtoint", "inttoptr":
+		case "insertvalue":
+			if fw := irAggWidth(ins.ty); fw > 0 && len(ins.args) == 3 {
+				var base []irVal
+				if ins.args[0] == "undef" || ins.args[0] == "poison" {
+					// components of undef must not be used before they are set
+					base = []irVal{{t: fpConstBits(0, fw), w: fw, poison: "true", fp: true}, {t: fpConstBits(0, fw), w: fw, poison: "true", fp: true}}
+				} else if v, ok := e.vals[ins.args[0]]; ok && v.agg != nil {
+					base = append([]irVal{}, v.agg...)
+				} else {
+					e.err = "insertvalue into unknown aggregate"
+					continue
+				}
+				k, _ := strconv.Atoi(ins.args[2])
+				if k < 0 || k > 1 {
+					e.err = "insertvalue index out of range"
+					continue
+				}
+				base[k] = e.fpOperand(ins.args[1], fw)
+				e.vals[ins.res] = irVal{agg: base, w: fw}
+			}
+		case "getelementptr", "alloca", "store", "bitcast", "ptrtoint", "inttoptr":
 			// memory / pointer instructions after the check: opaque
 		case "load":
 			if lw := irWidth(ins.ty); lw > 0 && ins.res != "" {
@@ -558,6 +624,12 @@ func (e *irEval) eval(fn *irFunc) (ret irVal) {
 			}
 			if fw := irFPWidth(ins.ty); len(ins.args) == 1 && fw > 0 {
 				return e.fpOperand(ins.args[0], fw)
+			}
+			if fw := irAggWidth(ins.ty); len(ins.args) == 1 && fw > 0 {
+				if v, ok := e.vals[ins.args[0]]; ok && v.agg != nil {
+					return v
+				}
+				e.err = "return of unknown aggregate"
 			}
 		default:
 			e.err = "unsupported instruction: " + ins.raw
@@ -722,6 +794,10 @@ func c02Prelude() string {
 			fmt.Fprintf(&sb, "(declare-fun uf_%s%d ((_ BitVec %d) (_ BitVec %d)) (_ BitVec %d))\n", o, w, w, w, w)
 		}
 	}
+	d := "(_ FloatingPoint 11 53)"
+	for _, n := range []string{"cdiv_re", "cdiv_im"} {
+		fmt.Fprintf(&sb, "(declare-fun %s (%s %s %s %s) %s)\n", n, d, d, d, d, d)
+	}
 	return sb.String()
 }
 
@@ -736,6 +812,12 @@ func buildC02Case(fn *irFunc, useUF bool) *c02Case {
 	var decl strings.Builder
 	for i, p := range fn.params {
 		w := irWidth(p)
+		if fw := irAggWidth(p); fw > 0 {
+			name := fmt.Sprintf("a%d", i)
+			fmt.Fprintf(&decl, "(declare-const %s_re %s)\n(declare-const %s_im %s)\n", name, fpSortS(fw), name, fpSortS(fw))
+			ev.vals[fmt.Sprintf("%%%d", i)] = irVal{w: fw, agg: []irVal{{t: name + "_re", w: fw, poison: "false", fp: true}, {t: name + "_im", w: fw, poison: "false", fp: true}}}
+			continue
+		}
 		if fw := irFPWidth(p); fw > 0 {
 			name := fmt.Sprintf("a%d", i)
 			fmt.Fprintf(&decl, "(declare-const %s %s)\n", name, fpSortS(fw))
@@ -758,6 +840,16 @@ func buildC02Case(fn *irFunc, useUF bool) *c02Case {
 	specFP := false
 	specPre := "true" // the Go spec defines the result only under this condition
 	ok := false
+	specIm := "" // complex results: spec is the real part, specIm the imaginary part
+	goComplexW := func(name string) int {
+		switch name {
+		case "complex64":
+			return 32
+		case "complex128":
+			return 64
+		}
+		return 0
+	}
 	goFloatW := func(name string) int {
 		switch name {
 		case "float32":
@@ -773,7 +865,40 @@ func buildC02Case(fn *irFunc, useUF bool) *c02Case {
 		ty, ok2 := goIntTypeOf(parts[3])
 		c.fnName = "ssa.Builder.BinOp"
 		c.oblig = fmt.Sprintf("ssa.Builder.BinOp/ensures-den[op=%s,x=%s,y=%s]", parts[1], parts[2], parts[3])
-		if fw := goFloatW(parts[2]); fw > 0 && parts[2] == parts[3] {
+		if cw := goComplexW(parts[2]); cw > 0 && parts[2] == parts[3] {
+			// complex arithmetic component-wise in IEEE arithmetic; multiplication by the
+			// textbook formula (what gc computes); division is the run-time function
+			// (for complex64: on the operands widened to complex128, result narrowed)
+			specPanic = "false"
+			a, b, cc, d := "a0_re", "a0_im", "a1_re", "a1_im"
+			switch parts[1] {
+			case "ADD":
+				spec, specIm, specW, specFP, ok = "(fp.add RNE "+a+" "+cc+")", "(fp.add RNE "+b+" "+d+")", cw, true, true
+			case "SUB":
+				spec, specIm, specW, specFP, ok = "(fp.sub RNE "+a+" "+cc+")", "(fp.sub RNE "+b+" "+d+")", cw, true, true
+			case "MUL":
+				spec = "(fp.sub RNE (fp.mul RNE " + a + " " + cc + ") (fp.mul RNE " + b + " " + d + "))"
+				specIm = "(fp.add RNE (fp.mul RNE " + a + " " + d + ") (fp.mul RNE " + b + " " + cc + "))"
+				specW, specFP, ok = cw, true, true
+			case "QUO":
+				w := func(x string) string {
+					if cw == 32 {
+						return "((_ to_fp 11 53) RNE " + x + ")"
+					}
+					return x
+				}
+				argS := w(a) + " " + w(b) + " " + w(cc) + " " + w(d)
+				spec, specIm = "(cdiv_re "+argS+")", "(cdiv_im "+argS+")"
+				if cw == 32 {
+					spec, specIm = "((_ to_fp 8 24) RNE "+spec+")", "((_ to_fp 8 24) RNE "+specIm+")"
+				}
+				specW, specFP, ok = cw, true, true
+			case "EQL":
+				spec, specW, ok = "(ite (and (fp.eq "+a+" "+cc+") (fp.eq "+b+" "+d+")) #b1 #b0)", 1, true
+			case "NEQ":
+				spec, specW, ok = "(ite (and (fp.eq "+a+" "+cc+") (fp.eq "+b+" "+d+")) #b0 #b1)", 1, true
+			}
+		} else if fw := goFloatW(parts[2]); fw > 0 && parts[2] == parts[3] {
 			// IEEE-754 arithmetic, round to nearest even; comparisons are false on NaN except !=
 			specPanic = "false"
 			switch parts[1] {
@@ -819,6 +944,8 @@ func buildC02Case(fn *irFunc, useUF bool) *c02Case {
 		c.oblig = fmt.Sprintf("ssa.Builder.UnOp/ensures-den[op=%s,x=%s]", parts[1], parts[2])
 		tx, ok1 := goIntTypeOf(parts[2])
 		switch {
+		case parts[1] == "SUB" && goComplexW(parts[2]) > 0:
+			spec, specIm, specW, specFP, specPanic, ok = "(fp.neg a0_re)", "(fp.neg a0_im)", goComplexW(parts[2]), true, "false", true
 		case parts[1] == "SUB" && goFloatW(parts[2]) > 0:
 			spec, specW, specFP, specPanic, ok = "(fp.neg a0)", goFloatW(parts[2]), true, "false", true
 		case parts[1] == "NOT":
@@ -835,6 +962,12 @@ func buildC02Case(fn *irFunc, useUF bool) *c02Case {
 		td, ok2 := goIntTypeOf(parts[2])
 		fs, fd := goFloatW(parts[1]), goFloatW(parts[2])
 		switch {
+		case goComplexW(parts[1]) > 0 && goComplexW(parts[2]) > 0:
+			cs, cd := goComplexW(parts[1]), goComplexW(parts[2])
+			spec, specIm, specW, specFP, specPanic, ok = "a0_re", "a0_im", cd, true, "false", true
+			if cs != cd {
+				spec, specIm = "("+fpToFP(cd)+" RNE a0_re)", "("+fpToFP(cd)+" RNE a0_im)"
+			}
 		case ok1 && ok2:
 			spec, specW, specPanic, ok = goConvert(ts, td, "a0"), td.w, "false", true
 		case ok1 && fd > 0:
@@ -866,6 +999,20 @@ func buildC02Case(fn *irFunc, useUF bool) *c02Case {
 		c.skip = "no Go-spec term for this case"
 	}
 	if c.skip != "" {
+		return c
+	}
+	if specIm != "" {
+		if ret.agg == nil || ret.w != specW {
+			c.queries = append(c.queries, c02Query{"width", c02Prelude() + "(assert true)\n(check-sat)\n"})
+			c.skip = "result is not a complex value of the Go type's width"
+			return c
+		}
+		// fold the pair into the scalar shape used below
+		ret = irVal{t: "(and (= " + ret.agg[0].t + " " + spec + ") (= " + ret.agg[1].t + " " + specIm + "))", w: specW, fp: true,
+			poison: orS(ret.agg[0].poison, ret.agg[1].poison)}
+		spec = "true"
+	} else if ret.agg != nil {
+		c.skip = "unexpected aggregate result"
 		return c
 	}
 	if ret.w != specW || ret.fp != specFP {
@@ -940,7 +1087,7 @@ func init() {
 		Modules: []Module{rtModule},
 		Extra:   c02Goals,
 		Undecided: []string{
-			"complex + - * == != and conversions between complex types (lowered to aggregate insert/extract of float operations; only complex division, the runtime function Complex128Div, is under contract); untyped-constant arithmetic (go/types, at compile time)",
+			"untyped-constant arithmetic (go/types, at compile time); complex(r, i), real(z), imag(z) builtins",
 			"float -> integer conversions of values whose truncation is not representable in the destination type (implementation-defined in the Go spec: no obligation)",
 			"that cl/compile.go passes go/ssa's operands to BinOp/UnOp/Convert unchanged; LLVM optimisation passes and code generation",
 			"constant operands: only the listed sample of constants is checked (run-time operands are covered for all values)",
@@ -1000,8 +1147,8 @@ func c02Goals(ck *Checker, rep *Report, opts *Options) []*Goal {
 		}
 	}
 	rep.Extra["cases_enumerated"] = ncase
-	rep.Extra["case_space"] = "operators {+,-,*,/,%,&,|,^,&^,==,!=,<,<=,>,>=} x 11 integer types; shifts x 11x11 (operand, count) type pairs; unary -,^ x 11, !; 11x11 integer conversions; sampled constant operands; {+,-,*,/,==,!=,<,<=,>,>=} and unary - x 2 float types; all conversions between the 11 integer and 2 float types and between the float types"
-	if ncase < 1100 {
+	rep.Extra["case_space"] = "operators {+,-,*,/,%,&,|,^,&^,==,!=,<,<=,>,>=} x 11 integer types; shifts x 11x11 (operand, count) type pairs; unary -,^ x 11, !; 11x11 integer conversions; sampled constant operands; {+,-,*,/,==,!=,<,<=,>,>=} and unary - x 2 float types; all conversions between the 11 integer and 2 float types and between the float types; {+,-,*,/,==,!=}, unary - and conversions x 2 complex types"
+	if ncase < 1150 {
 		rep.Broken = append(rep.Broken, fmt.Sprintf("emission harness produced only %d cases", ncase))
 	}
 	return goals
@@ -1012,6 +1159,12 @@ func c02Goals(ck *Checker, rep *Report, opts *Options) []*Goal {
 // Go expression.
 func c02Replay(fn *irFunc, model string, opts *Options) (map[string]interface{}, bool) {
 	doc := map[string]interface{}{"case": fn.name, "emitted_ir": fn.text}
+	for _, ins := range fn.body {
+		if ins.op == "call" && !strings.Contains(ins.pred, ".Assert") {
+			// the emitted code calls a run-time function that is not part of the module run under lli
+			return nil, false
+		}
+	}
 	mv := modelValues(model)
 	vals := map[string]*big.Int{}
 	parts := strings.Split(fn.name, "__")
@@ -1019,6 +1172,28 @@ func c02Replay(fn *irFunc, model string, opts *Options) (map[string]interface{},
 	for i, p := range fn.params {
 		name := fmt.Sprintf("a%d", i)
 		v := big.NewInt(0)
+		if fw := irAggWidth(p); fw > 0 {
+			lit := func(part string) string {
+				b := big.NewInt(0)
+				if x, ok := mv[name+part]; ok {
+					if bb, ok := sexpBits(x, FPSort(fw)); ok {
+						b = bb
+					}
+				}
+				vals[name+part] = b
+				d := math.Float64frombits(b.Uint64())
+				if fw == 32 {
+					d = float64(math.Float32frombits(uint32(b.Uint64())))
+				}
+				return fmt.Sprintf("0x%016X", math.Float64bits(d))
+			}
+			ft := "double"
+			if fw == 32 {
+				ft = "float"
+			}
+			args = append(args, fmt.Sprintf("{ %s, %s } { %s %s, %s %s }", ft, ft, ft, lit("_re"), ft, lit("_im")))
+			continue
+		}
 		if fw := irFPWidth(p); fw > 0 {
 			if x, ok := mv[name]; ok {
 				if b, ok := sexpBits(x, FPSort(fw)); ok {
@@ -1055,8 +1230,33 @@ func c02Replay(fn *irFunc, model string, opts *Options) (map[string]interface{},
 	ll.WriteString(fn.text)
 	rw := irWidth(fn.ret)
 	rfw := irFPWidth(fn.ret)
-	fmt.Fprintf(&ll, "define i32 @main() {\n  %%r = call %s @\"%s\"(%s)\n", fn.ret, fn.name, strings.Join(args, ", "))
+	raw := irAggWidth(fn.ret)
+	retTy := fn.ret
+	switch raw {
+	case 64:
+		retTy = "{ double, double }"
+	case 32:
+		retTy = "{ float, float }"
+	}
+	fmt.Fprintf(&ll, "define i32 @main() {\n  %%r = call %s @\"%s\"(%s)\n", retTy, fn.name, strings.Join(args, ", "))
+	if raw > 0 {
+		ft, it := "double", "i64"
+		if raw == 32 {
+			ft, it = "float", "i32"
+		}
+		for k, part := range []string{"re", "im"} {
+			fmt.Fprintf(&ll, "  %%%s = extractvalue %s %%r, %d\n  %%%sb = bitcast %s %%%s to %s\n", part, retTy, k, part, ft, part, it)
+			if raw == 32 {
+				fmt.Fprintf(&ll, "  %%%sz = zext i32 %%%sb to i64\n", part, part)
+			} else {
+				fmt.Fprintf(&ll, "  %%%sz = add i64 %%%sb, 0\n", part, part)
+			}
+			fmt.Fprintf(&ll, "  %%q%s = call i32 (i8*, ...) @printf(i8* getelementptr inbounds ([6 x i8], [6 x i8]* @fmt, i32 0, i32 0), i64 %%%sz)\n", part, part)
+		}
+		ll.WriteString("  ret i32 0\n}\n")
+	}
 	switch {
+	case raw > 0:
 	case rfw == 32:
 		ll.WriteString("  %rb = bitcast float %r to i32\n  %z = zext i32 %rb to i64\n")
 	case rfw == 64:
@@ -1066,7 +1266,9 @@ func c02Replay(fn *irFunc, model string, opts *Options) (map[string]interface{},
 	default:
 		ll.WriteString("  %z = add i64 %r, 0\n")
 	}
-	ll.WriteString("  %q = call i32 (i8*, ...) @printf(i8* getelementptr inbounds ([6 x i8], [6 x i8]* @fmt, i32 0, i32 0), i64 %z)\n  ret i32 0\n}\n")
+	if raw == 0 {
+		ll.WriteString("  %q = call i32 (i8*, ...) @printf(i8* getelementptr inbounds ([6 x i8], [6 x i8]* @fmt, i32 0, i32 0), i64 %z)\n  ret i32 0\n}\n")
+	}
 	llFile := filepath.Join(dir, "case.ll")
 	os.WriteFile(llFile, []byte(ll.String()), 0o644)
 	out, err := exec.Command("lli-14", llFile).CombinedOutput()
@@ -1081,6 +1283,8 @@ func c02Replay(fn *irFunc, model string, opts *Options) (map[string]interface{},
 	var expr string
 	goLit := func(ty string, v *big.Int) string {
 		switch ty {
+		case "complex64", "complex128":
+			return "" // handled by cLit
 		case "float32":
 			return fmt.Sprintf("math.Float32frombits(0x%x)", v)
 		case "float64":
@@ -1097,6 +1301,84 @@ func c02Replay(fn *irFunc, model string, opts *Options) (map[string]interface{},
 		"EQL": "==", "NEQ": "!=", "LSS": "<", "LEQ": "<=", "GTR": ">", "GEQ": ">="}
 	decl := ""
 	resTy := ""
+	cLit := func(ty, name string) string {
+		re, im := vals[name+"_re"], vals[name+"_im"]
+		if re == nil {
+			re = big.NewInt(0)
+		}
+		if im == nil {
+			im = big.NewInt(0)
+		}
+		if ty == "complex64" {
+			return fmt.Sprintf("complex(math.Float32frombits(0x%x), math.Float32frombits(0x%x))", re, im)
+		}
+		return fmt.Sprintf("complex(math.Float64frombits(0x%x), math.Float64frombits(0x%x))", re, im)
+	}
+	isC := func(ty string) bool { return ty == "complex64" || ty == "complex128" }
+	if len(parts) > 2 && (isC(parts[1]) || isC(parts[2])) {
+		if raw == 0 && rw != 1 {
+			return doc, false
+		}
+		switch parts[0] {
+		case "binop":
+			decl = fmt.Sprintf("var x %s = %s\n\tvar y %s = %s\n", parts[2], cLit(parts[2], "a0"), parts[3], cLit(parts[3], "a1"))
+			expr = "x " + opSym[parts[1]] + " y"
+		case "unop":
+			decl = fmt.Sprintf("var x %s = %s\n", parts[2], cLit(parts[2], "a0"))
+			expr = "-x"
+		case "conv":
+			decl = fmt.Sprintf("var x %s = %s\n", parts[1], cLit(parts[1], "a0"))
+			expr = parts[2] + "(x)"
+		default:
+			return doc, false
+		}
+		printer := "fmt.Println(b2u(r))"
+		switch raw {
+		case 64:
+			printer = "fmt.Println(math.Float64bits(real(r)))\n\tfmt.Println(math.Float64bits(imag(r)))"
+		case 32:
+			printer = "fmt.Println(uint64(math.Float32bits(real(r))))\n\tfmt.Println(uint64(math.Float32bits(imag(r))))"
+		}
+		prog := fmt.Sprintf("package main\n\nimport (\n\t\"fmt\"\n\t\"math\"\n)\n\nvar _ = math.Pi\n\nfunc b2u(b bool) uint64 {\n\tif b {\n\t\treturn 1\n\t}\n\treturn 0\n}\n\nfunc main() {\n\t%s\tr := %s\n\t%s\n\t_ = b2u\n}\n", decl, expr, printer)
+		goFile := filepath.Join(dir, "ref.go")
+		os.WriteFile(goFile, []byte(prog), 0o644)
+		doc["go_expression"] = strings.ReplaceAll(decl, "\n\t", "; ") + "r := " + expr
+		gobin := os.Getenv("GO")
+		if gobin == "" {
+			gobin = "go"
+		}
+		cmd := exec.Command(gobin, "run", goFile)
+		cmd.Env = append(os.Environ(), "GOFLAGS=-mod=mod", "GO111MODULE=off")
+		out2, err2 := cmd.CombinedOutput()
+		want := strings.TrimSpace(string(out2))
+		doc["go_toolchain_result"] = want
+		if err2 != nil && want == "" {
+			doc["go_error"] = err2.Error()
+			return doc, false
+		}
+		gl, wl := strings.Fields(got), strings.Fields(want)
+		disagree := len(gl) != len(wl)
+		for i := 0; !disagree && i < len(gl); i++ {
+			if gl[i] == wl[i] {
+				continue
+			}
+			g, e1 := strconv.ParseUint(gl[i], 10, 64)
+			w, e2 := strconv.ParseUint(wl[i], 10, 64)
+			nan := func(b uint64) bool {
+				if raw == 32 {
+					f := math.Float32frombits(uint32(b))
+					return f != f
+				}
+				f := math.Float64frombits(b)
+				return f != f
+			}
+			if e1 != nil || e2 != nil || raw == 0 || !(nan(g) && nan(w)) {
+				disagree = true
+			}
+		}
+		doc["disagree"] = disagree
+		return doc, disagree
+	}
 	switch parts[0] {
 	case "binop":
 		if parts[2] == "bool" {
